@@ -732,8 +732,10 @@ func (p *printer) arithExp(w *ast.ArithExp) {
 func (p *printer) arithExpr(list bool, left string, x ast.Word) {
 	p.w.WriteString(left)
 	if !list {
+		// a <newline> inside an arithmetic expression does not begin the
+		// pending here-documents
 		p.lv++
-		p.newline()
+		p.w.WriteByte('\n')
 		p.indent()
 	}
 	end := x.Pos()
@@ -746,7 +748,7 @@ func (p *printer) arithExpr(list bool, left string, x ast.Word) {
 	}
 	if !list {
 		p.lv--
-		p.newline()
+		p.w.WriteByte('\n')
 		p.indent()
 	}
 	p.w.WriteString("))")
